@@ -97,7 +97,9 @@ def prepare(ctx):
 
 def dims(ctx):
     return [("sel", SELS), ("version", VERSIONS), ("code", [0, 1, 2]), ("custkey", [False, True]),
-            ("shape", SHAPES), ("extrakey", [None] + list(range(2 if ctx.quick else 16))), ("sink", ["stream", "path"])]
+            ("shape", SHAPES), ("extrakey", [None] + list(range(2 if ctx.quick else 16))), ("sink", ["stream", "path"]),
+            # a second ECC key pair with ANOTHER selector placed first in the caller's lists: blocks are matched by selector, not by position
+            ("decoy", [True, False])]
 
 
 def dec_subsets(order):
@@ -217,26 +219,27 @@ def run_case(ctx, case):
     # the caller's encryptor objects are created once and used for writing AND reading (as in the appnotes)
     objs = {nm: mk(nm) for nm in ("cust", "ecc", "upd")}
     mk = lambda nm: objs[nm]
+    decoy = [EccDecryptor((sel + 1) % 4, FX.priv_key(FX.ecc_scalar(ctx, 4)))] if d["decoy"] else []
     import os as _os
     path = _os.path.join(shapes.tmpdir(), "c02.bec2") if d["sink"] == "path" else None
     try:
         with DetRandom("c02-%r" % (case,), preset=preset):
             if path:
-                bec.write_file(path, [mk("cust"), mk("ecc")])      # file path: written with CRLF line ends
+                bec.write_file(path, decoy + [mk("cust"), mk("ecc")])      # file path: written with CRLF line ends
                 with open(path, "r", newline="") as fh:
                     text = fh.read()
             else:
-                bec.write_file(s, [mk("cust"), mk("ecc")])
+                bec.write_file(s, decoy + [mk("cust"), mk("ecc")])
                 text = s.getvalue()
     except Exception as e:
         o.cls = "write-raises"
         return o.viol("write|raises|%s" % type(e).__name__, "writing raised %r (key class %s, blocks %r)" % (e, name, order))
     try:
         if path:
-            r = Bec2File.read_file(path, [mk(n) for n in decs])
+            r = Bec2File.read_file(path, decoy + [mk(n) for n in decs])
             text = text.replace("\r\n", "\n")
         else:
-            r = Bec2File.read_file(io.StringIO(text), [mk(n) for n in decs])
+            r = Bec2File.read_file(io.StringIO(text), decoy + [mk(n) for n in decs])
     except Exception as e:
         o.cls = "read-raises"
         return o.viol("read|raises|%s|%s" % (type(e).__name__, name if ki > 1 and d["extrakey"] is None else "anykey"),
@@ -246,7 +249,7 @@ def run_case(ctx, case):
         o.viol("read|session-key", "session key read as %s, written %s" % (r.session_key.hex(), key.hex()))
     # reading the same text a second time with the same decryptor objects gives the same result
     try:
-        r2 = Bec2File.read_file(io.StringIO(text), [mk(n) for n in decs])
+        r2 = Bec2File.read_file(io.StringIO(text), [mk(n) for n in decs] + decoy)   # decoy last this time: order of the list is irrelevant
         if r2.session_key != r.session_key or FX.view(r2.bf3file) != FX.view(r.bf3file):
             o.viol("read|second-read-differs", "reading the same file twice with the same decryptor objects gives different results")
     except Exception as e:
